@@ -2,62 +2,173 @@
 
 package gobinlog
 
+// Contracts for the conversion of a decoded row image into column values (streamer.go
+// getValuesFromRow / getIdentifiesFromRow): properties C01 (glue), C09 (exact consumption), C10 (signedness
+// taken from the mapper column of the same ordinal), C13 (NULL / empty / absent), C15 (attribution by ordinal).
+
 import (
 	"github.com/Breeze0806/gobinlog/internal/vspec"
 	"github.com/Breeze0806/gobinlog/replication"
 )
 
-// number of present columns among the first c
-func specPresentBefore(rs *replication.Rows, c int) int {
+// number of present columns among the first c (cols = the columns-present bitmap of the image)
+func specPresentBefore(cols *replication.Bitmap, c int) int {
 	if c <= 0 {
 		return 0
 	}
-	p := specPresentBefore(rs, c-1)
-	if rs.DataColumns.Bit(c - 1) {
-		return p + 1
+	if replication.SpecBitOf(cols, c-1) {
+		return specPresentBefore(cols, c-1) + 1
+	}
+	return specPresentBefore(cols, c-1)
+}
+
+// is column c present and not NULL in the image? (the NULL bitmap is indexed by present columns only)
+func specHasCell(cols *replication.Bitmap, nulls *replication.Bitmap, c int) bool {
+	return replication.SpecBitOf(cols, c) && !replication.SpecBitOf(nulls, specPresentBefore(cols, c))
+}
+
+// offset of column c's cell inside the image: the cells of the present, non-NULL columns before it
+func specImagePos(tm *replication.TableMap, cols *replication.Bitmap, nulls *replication.Bitmap, image []byte, c int) int {
+	if c <= 0 {
+		return 0
+	}
+	p := specImagePos(tm, cols, nulls, image, c-1)
+	if specHasCell(cols, nulls, c-1) {
+		return p + replication.SpecCellLen(image, p, tm.Types[c-1], tm.Metadata[c-1])
 	}
 	return p
 }
 
-// is column c present and not NULL in the after-image of the row?
-func specHasCell(rs *replication.Rows, row int, c int) bool {
-	return rs.DataColumns.Bit(c) && !rs.Rows[row].NullColumns.Bit(specPresentBefore(rs, c))
-}
-
-// offset of column c's cell inside the after-image
-func specImagePos(tc *tableCache, rs *replication.Rows, row int, c int) int {
-	if c <= 0 {
-		return 0
-	}
-	p := specImagePos(tc, rs, row, c-1)
-	if specHasCell(rs, row, c-1) {
-		return p + replication.SpecCellLen(rs.Rows[row].Data, p, tc.tableMap.Types[c-1], tc.tableMap.Metadata[c-1])
-	}
-	return p
-}
-
-func vc_getValuesFromRow_requires(tc *tableCache, rs *replication.Rows, rowIndex int) bool {
-	n := rs.DataColumns.Count()
-	return tc != nil && rs != nil && tc.tableMap != nil && tc.table != nil &&
-		rowIndex >= 0 && rowIndex < len(rs.Rows) &&
-		n >= 0 && n <= 4096 &&
-		len(tc.tableMap.Types) == n && len(tc.tableMap.Metadata) == n &&
+// the image is well formed for this table map: bitmaps are valid, the NULL bitmap has one bit per present column,
+// one type / metadata entry per column, and every cell lies inside the image
+func specImageOK(tm *replication.TableMap, cols *replication.Bitmap, nulls *replication.Bitmap, image []byte) bool {
+	n := cols.Count()
+	return replication.SpecValidBitmap(cols) && replication.SpecValidBitmap(nulls) && n <= 4096 &&
+		nulls.Count() == specPresentBefore(cols, n) &&
+		len(tm.Types) == n && len(tm.Metadata) == n &&
 		vspec.Forall(0, n, func(c int) bool {
-			return !specHasCell(rs, rowIndex, c) ||
-				replication.SpecCellOK(rs.Rows[rowIndex].Data, specImagePos(tc, rs, rowIndex, c), tc.tableMap.Types[c], tc.tableMap.Metadata[c])
+			return specPresentBefore(cols, c) >= 0 && specPresentBefore(cols, c) <= c &&
+				(!replication.SpecBitOf(cols, c) || specPresentBefore(cols, c) < nulls.Count()) &&
+				(!specHasCell(cols, nulls, c) ||
+					replication.SpecCellOK(image, specImagePos(tm, cols, nulls, image, c), tm.Types[c], tm.Metadata[c]))
 		})
 }
 
-func vc_getValuesFromRow_loop1_inv(c int, valueIndex int, pos int, values *RowData, tc *tableCache, rs *replication.Rows, rowIndex int) bool {
-	return c >= 0 && c <= rs.DataColumns.Count() &&
-		valueIndex == specPresentBefore(rs, c) &&
-		pos == specImagePos(tc, rs, rowIndex, c) &&
-		values != nil && len(values.Columns) == c
+// the mapper's table: as many columns as it says, none of them nil (environment assumption on MysqlTable)
+func specTableOK(t MysqlTable) bool {
+	return t != nil && vspec.Forall(0, len(t.Columns()), func(c int) bool { return t.Columns()[c] != nil })
 }
 
+// what column c of the converted image must be
+func specColumnOK(col *ColumnData, tc *tableCache, cols *replication.Bitmap, nulls *replication.Bitmap, image []byte, c int) bool {
+	if col == nil || col.Filed != tc.table.Columns()[c].Field() || col.Type != ColumnType(tc.tableMap.Types[c]) {
+		return false
+	}
+	if !replication.SpecBitOf(cols, c) {
+		return col.IsEmpty && col.Data == nil // absent from a partial image: flagged, no data
+	}
+	if !specHasCell(cols, nulls, c) {
+		return !col.IsEmpty && col.Data == nil // SQL NULL: no data
+	}
+	// present, not NULL: data present (possibly empty, never nil) and equal to the decoded cell, signedness by ordinal
+	return !col.IsEmpty && col.Data != nil &&
+		vspec.SameText(col.Data, replication.SpecCellText(image, specImagePos(tc.tableMap, cols, nulls, image, c),
+			tc.tableMap.Types[c], tc.tableMap.Metadata[c], tc.table.Columns()[c].IsUnSignedInt()))
+}
+
+// Ghost: every column appended so far was, when it was appended, what specColumnOK demands. (Columns appended
+// earlier are separate objects that the loop never touches again: each iteration only writes the object it has just
+// allocated and appends its address.)
+var vcColsOK bool
+
+// ---- getValuesFromRow: the after image ----
+
+func vc_getValuesFromRow_requires(tc *tableCache, rs *replication.Rows, rowIndex int) bool {
+	return tc != nil && rs != nil && tc.tableMap != nil && specTableOK(tc.table) &&
+		rowIndex >= 0 && rowIndex < len(rs.Rows) &&
+		replication.SpecValidBitmap(&rs.IdentifyColumns) &&
+		specImageOK(tc.tableMap, &rs.DataColumns, &rs.Rows[rowIndex].NullColumns, rs.Rows[rowIndex].Data)
+}
+
+func vc_hook_entry_getValuesFromRow(tc *tableCache, rs *replication.Rows, rowIndex int) { vcColsOK = true }
+
+// end of an iteration (the loop counter has been incremented already): the column just appended, index c-1, is checked
+func vc_hook_loopstep_getValuesFromRow_1(c int, values *RowData, tc *tableCache, rs *replication.Rows, rowIndex int) {
+	vcColsOK = vcColsOK && c >= 1 && len(values.Columns) == c &&
+		specColumnOK(values.Columns[c-1], tc, &rs.DataColumns, &rs.Rows[rowIndex].NullColumns, rs.Rows[rowIndex].Data, c-1)
+}
+
+func vc_getValuesFromRow_loop1_inv(c int, valueIndex int, pos int, values *RowData, tc *tableCache, rs *replication.Rows, rowIndex int) bool {
+	cols, nulls, image := &rs.DataColumns, &rs.Rows[rowIndex].NullColumns, rs.Rows[rowIndex].Data
+	return c >= 0 && c <= cols.Count() &&
+		valueIndex == specPresentBefore(cols, c) &&
+		pos == specImagePos(tc.tableMap, cols, nulls, image, c) &&
+		values != nil && vspec.Owned(values.Columns) && len(values.Columns) == c &&
+		vcColsOK
+}
+
+// error exactly when the mapper's column count disagrees with the event's (C15)
 func vc_getValuesFromRow_ensures_shape(tc *tableCache, rs *replication.Rows, rowIndex int, out *RowData, err error) bool {
 	if len(tc.table.Columns()) != rs.DataColumns.Count() {
-		return err != nil
+		return err != nil && out == nil
 	}
 	return err == nil && out != nil && len(out.Columns) == rs.DataColumns.Count()
+}
+
+// every column: name and signedness from the mapper column of the same ordinal, type from the table map,
+// absent / NULL / value as the image says (C01, C10, C13, C15)
+func vc_getValuesFromRow_ensures_columns(tc *tableCache, rs *replication.Rows, rowIndex int, out *RowData, err error) bool {
+	return err != nil || vcColsOK
+}
+
+// the image is consumed exactly as far as the length rule says (C09)
+func vc_getValuesFromRow_ensures_consumed(tc *tableCache, rs *replication.Rows, rowIndex int, out *RowData, err error, pos int) bool {
+	if err != nil {
+		return true
+	}
+	cols, nulls, image := &rs.DataColumns, &rs.Rows[rowIndex].NullColumns, rs.Rows[rowIndex].Data
+	return pos == specImagePos(tc.tableMap, cols, nulls, image, cols.Count())
+}
+
+// ---- getIdentifiesFromRow: the before image (same statement over IdentifyColumns / NullIdentifyColumns / Identify) ----
+
+func vc_getIdentifiesFromRow_requires(tc *tableCache, rs *replication.Rows, rowIndex int) bool {
+	return tc != nil && rs != nil && tc.tableMap != nil && specTableOK(tc.table) &&
+		rowIndex >= 0 && rowIndex < len(rs.Rows) &&
+		specImageOK(tc.tableMap, &rs.IdentifyColumns, &rs.Rows[rowIndex].NullIdentifyColumns, rs.Rows[rowIndex].Identify)
+}
+
+func vc_hook_entry_getIdentifiesFromRow(tc *tableCache, rs *replication.Rows, rowIndex int) { vcColsOK = true }
+
+func vc_hook_loopstep_getIdentifiesFromRow_1(c int, identifies *RowData, tc *tableCache, rs *replication.Rows, rowIndex int) {
+	vcColsOK = vcColsOK && c >= 1 && len(identifies.Columns) == c &&
+		specColumnOK(identifies.Columns[c-1], tc, &rs.IdentifyColumns, &rs.Rows[rowIndex].NullIdentifyColumns, rs.Rows[rowIndex].Identify, c-1)
+}
+
+func vc_getIdentifiesFromRow_loop1_inv(c int, identifyIndex int, pos int, identifies *RowData, tc *tableCache, rs *replication.Rows, rowIndex int) bool {
+	cols, nulls, image := &rs.IdentifyColumns, &rs.Rows[rowIndex].NullIdentifyColumns, rs.Rows[rowIndex].Identify
+	return c >= 0 && c <= cols.Count() &&
+		identifyIndex == specPresentBefore(cols, c) &&
+		pos == specImagePos(tc.tableMap, cols, nulls, image, c) &&
+		identifies != nil && vspec.Owned(identifies.Columns) && len(identifies.Columns) == c &&
+		vcColsOK
+}
+
+func vc_getIdentifiesFromRow_ensures_shape(tc *tableCache, rs *replication.Rows, rowIndex int, out *RowData, err error) bool {
+	if len(tc.table.Columns()) != rs.IdentifyColumns.Count() {
+		return err != nil && out == nil
+	}
+	return err == nil && out != nil && len(out.Columns) == rs.IdentifyColumns.Count()
+}
+
+func vc_getIdentifiesFromRow_ensures_columns(tc *tableCache, rs *replication.Rows, rowIndex int, out *RowData, err error) bool {
+	return err != nil || vcColsOK
+}
+
+func vc_getIdentifiesFromRow_ensures_consumed(tc *tableCache, rs *replication.Rows, rowIndex int, out *RowData, err error, pos int) bool {
+	if err != nil {
+		return true
+	}
+	cols, nulls, image := &rs.IdentifyColumns, &rs.Rows[rowIndex].NullIdentifyColumns, rs.Rows[rowIndex].Identify
+	return pos == specImagePos(tc.tableMap, cols, nulls, image, cols.Count())
 }
